@@ -286,6 +286,19 @@ mod mapprobe {
   }
   macro_rules! by_key { ($kt:expr, $f:ident, $($a:expr),*) => { match $kt { 1 => $f::<K1>($($a),*), 2 => $f::<K2>($($a),*), _ => $f::<K3>($($a),*) } } }
 
+  // a build that is aborted INSIDE Context::write (the task's write function panics; the caller catches the panic and uses the
+  // instance on): the resource state of every type must still be there afterwards
+  #[derive(Clone, PartialEq, Eq, Hash, Debug)] pub struct PanicWrite(pub u32);
+  impl pie::Task for PanicWrite {
+    type Output = ();
+    fn execute<C: pie::Context>(&self, ctx: &mut C) {
+      let _ = ctx.write(&K1(self.0), MapEqualsChecker, |_w| -> Result<(), std::convert::Infallible> { panic!("write function panics") });
+    }
+  }
+  fn aborted_write(pie: &mut Pie<()>, k: u32) {
+    let _ = std::panic::catch_unwind(std::panic::AssertUnwindSafe(|| { pie.new_session().require(&PanicWrite(k)); }));
+  }
+
   // key type 6: the VALUE type has an equality coarser than identity (all payloads of one decade are `==`): what a read returns is
   // the value most recently stored, not merely one that is equal to it
   #[derive(Clone, PartialEq, Eq, Hash, Debug)] pub struct K6(pub u32);
@@ -371,6 +384,7 @@ mod mapprobe {
                      oslots.remove(&slot); slots.insert(slot, (kt, k, s1));
                      writeln!(out, "t {} {} {}", o(s1), o(s2), o(s3)).unwrap();
                    } }
+          "p" => { let k: u32 = t.num(); aborted_write(&mut pie, k); writeln!(out, "u").unwrap(); }
           "c" => { let slot: u32 = t.num();
                    if let Some((kt, k, st)) = oslots.get(&slot).cloned() {
                      let inc = if kt == 4 { check_o(&mut pie, MapKeyToObj(k), &st) } else { check_o(&mut pie, okey5(k), &st) };
